@@ -12,6 +12,7 @@ package registry
 
 import (
 	"bytes"
+	"fmt"
 	"time"
 
 	beacon "github.com/oasisprotocol/oasis-core/go/beacon/api"
@@ -73,14 +74,30 @@ func (w *rWorld) setEntities() {
 	}
 }
 
+// rDispatcher stands for the other applications subscribed to registry messages:
+// with cfg veto=1 any subscriber may reject any published message (as the roothash
+// application does for runtime descriptors exceeding its limits).
+type rDispatcher struct{ n int }
+
+var errRVeto = fmt.Errorf("verif: a subscriber rejected the message")
+
+func (d *rDispatcher) Subscribe(any, abciAPI.MessageSubscriber) {}
+
+func (d *rDispatcher) Publish(*abciAPI.Context, abciAPI.Message) (any, error) {
+	d.n++
+	if symx.Cfg("veto", 0) == 1 && symx.Bool(symx.N("veto", d.n)) {
+		return nil, errRVeto
+	}
+	return nil, nil
+}
+
 func rMust(err error, what string) { symx.Assert(err == nil, what+" failed") }
 
 func rNewWorld() *rWorld {
 	w := &rWorld{}
 	w.appState = abciAPI.NewMockApplicationState(&abciAPI.MockApplicationStateConfig{})
 	w.ctx = w.appState.NewContext(abciAPI.ContextEndBlock)
-	var md abciAPI.NoopMessageDispatcher
-	w.app = &Application{w.appState, &md}
+	w.app = &Application{w.appState, &rDispatcher{}}
 	w.state = registryState.NewMutableState(w.ctx.State())
 	w.stake = stakingState.NewMutableState(w.ctx.State())
 	rMust(w.stake.SetConsensusParameters(w.ctx, &staking.ConsensusParameters{
